@@ -94,9 +94,14 @@ PROPS = {
          "has changed (faulty-comparison mode); C object-key TU: no pin and no local reference survives an error exit (T-PIN, T-REF). "
          "Bounded: interior nodes, contents-after-failure, refcounts for every n-th failing comparison (cmpfault_rt).",
          "A1-A7; recorded findings: separator comparison after the child's deletion, &= clear-then-update, TypeError swallowed by C leaf lookups", "7/C14"),
- "C15": (True, "exploration", "bounded run-time contract stand-in (iter_rt), crash-isolated in child processes",
-         "Bounded only: interleavings of <= 4 iterator steps / index reads with <= 4 mutations on 8-key trees at node sizes 2/2, 3/2, all kinds, both implementations.",
-         "M-ITER obligations (memory safety under interference) not discharged yet", "7/C15"),
+ "C15": (True, "other", T_C + "; bounded run-time contract stand-in (iter_rt), crash-isolated in child processes",
+         "Proved (C): every entry a lazy sequence or iterator hands out is read at an offset inside the leaf as it is now - the asserted "
+         "precondition of getBucketEntry (0 <= i < b->len, harvested from the non-NDEBUG AST) holds at every call site for all cursor "
+         "states, i.e. whatever mutations happened between steps (M-IDX). Bounded: step outcomes {entry, stop, RuntimeError, IndexError}, "
+         "the Python generators, soundness and contents afterwards: interleavings of <= 4 steps / index reads with <= 4 mutations on 8-key "
+         "trees at node sizes 2/2, 3/2, all kinds, both implementations (iter_rt).",
+         "A4b (Python code run inside the step does not modify the leaf just checked), A5-A7; the cursor's constructor establishing "
+         "currentoffset >= 0 and NULL-ness of the bucket pointer are not part of M-IDX", "7/C15 and 12.8"),
  "C16": (True, "other", T_C + BOUNDED,
          "Proved: the local reference discipline T-REF for all functions of the object-keyed/-valued TUs except 31 listed ones. "
          "Bounded: slot-level ownership (refcount equation per call) over histories (refcount_rt). Memory bounds are not proved.",
